@@ -25,6 +25,7 @@ class Source:
         self._tree = {}
         self._funcs = {}
         self.consulted = set()
+        self._rawtree = {}
         self.splices = {}        # rel -> [(qualname, canon_lo, canon_hi, orig_lo, orig_hi)]: functions analysed in reviewed form
 
     def orig_line(self, rel, line):
@@ -39,6 +40,36 @@ class Source:
                 return olo
             shift += (chi - clo) - (ohi - olo)
         return line - shift
+
+    def orig_line_of(self, rel, node):
+        """Like orig_line, but inside a function that is analysed in rewritten form the statement holding `node`
+        is looked up by its text among the statements of the function as written on disk (unique match only)."""
+        line = getattr(node, 'lineno', None)
+        if line is None:
+            return None
+        for q, clo, chi, olo, ohi in self.splices.get(rel, []):
+            if clo <= line <= chi:
+                st = node
+                while st is not None and not isinstance(st, ast.stmt):
+                    st = getattr(st, '_parent', None)
+                if st is None or isinstance(st, (ast.FunctionDef, ast.ClassDef)):
+                    return olo
+                try:
+                    want = ast.unparse(st) if not hasattr(st, 'body') else ast.unparse(st).split('\n')[0]
+                    if rel not in self._rawtree:
+                        self._rawtree[rel] = ast.parse(self.text_raw(rel))
+                    hits = []
+                    for x in ast.walk(self._rawtree[rel]):
+                        if isinstance(x, ast.stmt) and olo <= getattr(x, 'lineno', 0) <= ohi and type(x) is type(st):
+                            got = ast.unparse(x) if not hasattr(x, 'body') else ast.unparse(x).split('\n')[0]
+                            if got == want:
+                                hits.append(x.lineno)
+                    if len(hits) == 1:
+                        return hits[0]
+                except Exception:
+                    pass
+                return olo
+        return self.orig_line(rel, line)
 
     # ------------------------------------------------------------------ files
     def exists(self, rel):
